@@ -162,6 +162,7 @@ impl Property for C10 {
             expect: serde_json::to_value(&e).unwrap(),
             shape: h.0,
             est_len: 100,
+            min_quantum: 0,
         }
     }
     fn prepare(&self, scn: &mut Scenario, case_seed: u64) -> Vec<(Violation, crate::run::RunSpec, RunResult)> {
